@@ -331,6 +331,11 @@ def obligations(tier):
     for ff in ("amber", "parse", "charmm") if tier == "quick" else ("amber", "charmm", "parse", "peoepb", "swanson", "tyl06"):
         obs.append(Obligation(f"input-names-{ff}", table_input_names, dict(ff=ff, names=list(INPUT_NAMES)), kind="table", group="formal"))
     obs.append(Obligation("formal-parse-neutral-termini", table_formal, dict(ff="parse", residues=list(c01.STATES) if tier == "thorough" else ["ASP", "CYS", "ALA", "PRO"], neutral=True), kind="table", group="formal"))
+    # "the total charge is their integer sum": a successful run has an integral total, whatever else the run reports
+    # (C12's charge harness on the real driver, total symbolic, an unparameterised atom present or not; round 7)
+    from . import c12
+
+    obs.append(Obligation("successful-run-has-integral-total", c12.h_charge, dict(ff=0, ligand=0), group="integral-total", time_cap=1500, max_paths=100000))
     return obs
 
 
